@@ -20,3 +20,4 @@ def run(project, rep):
     # "header fields equal to those in the file": each constructor parameter is stored under its own name, from its
     # own parameter, as given (B-R2), the validators are the declared ones - any three-digit version, UIDs up to 36 characters (B-R4) - and the patterns admit every header the validators do, the whole UID alphabet included (B-R6); the rest of the B family is C12's
     rep.run_only(("B-R2", "B-R4", "B-R6"), H.b_rules, project, rep)
+    rep.run(H.b_r16_optional_header_parts_stay_optional, project, rep)
